@@ -1,10 +1,77 @@
 //! Case kinds of group `life` (facade-level, K1-K5). `run` returns None for case kinds it does
 //! not know. Owned by the `life` group; other files need not change when kinds are added here.
+//!
+//!   exp <created> <ttl> <percent>            -> OK <get_expiration_time>
+//!   life <rec> <op,arg,arg2;...|->           -> OK <r1;r2;...>   (spaces inside one result -> ',')
+//!   rel <recA>[@ifindex] <recB>[@ifindex]    -> OK <matches> <rrdata_match> <suppressed_by_answer>
+//!   lsim <history json>                      -> the raw JSON result of one simulated-daemon history
+//! Record syntax: `k1::parse_rec` (namehex/newname|~/ty/class/flush/ttl/created/rdata).
+use crate::k1;
 #[allow(unused_imports)]
 use crate::util::*;
-#[allow(unused_imports)]
 use mdns_sd::verif_hooks as vh;
 
-pub fn run(_t: &[&str]) -> Option<String> {
-    None
+fn parse_rec_if(s: &str) -> Option<vh::PlainRecord> {
+    match s.rsplit_once('@') {
+        Some((r, i)) => {
+            let mut p = k1::parse_rec(r)?;
+            p.if_index = i.parse().ok()?;
+            Some(p)
+        }
+        None => k1::parse_rec(s),
+    }
+}
+
+pub fn run(t: &[&str]) -> Option<String> {
+    match t[0] {
+        "exp" => {
+            if t.len() != 4 {
+                return Some("BADCASE".into());
+            }
+            let (Ok(c), Ok(ttl), Ok(p)) = (t[1].parse::<u64>(), t[2].parse::<u32>(), t[3].parse::<u32>()) else {
+                return Some("SKIP".into());
+            };
+            Some(format!("OK {}", vh::expiration_time(c, ttl, p)))
+        }
+        "life" => {
+            if t.len() != 3 {
+                return Some("BADCASE".into());
+            }
+            let Some(rec) = parse_rec_if(t[1]) else { return Some("SKIP".into()) };
+            let mut ops: Vec<(String, u64, u64)> = Vec::new();
+            if t[2] != "-" {
+                for o in t[2].split(';') {
+                    let f: Vec<&str> = o.split(',').collect();
+                    if f.len() != 3 {
+                        return Some("SKIP".into());
+                    }
+                    let (Ok(a), Ok(b)) = (f[1].parse::<u64>(), f[2].parse::<u64>()) else {
+                        return Some("SKIP".into());
+                    };
+                    ops.push((f[0].to_string(), a, b));
+                }
+            }
+            match vh::life_ops(&rec, &ops) {
+                Some(v) => {
+                    let parts: Vec<String> = v.iter().map(|s| s.replace(' ', ",")).collect();
+                    Some(format!("OK {}", if parts.is_empty() { "-".to_string() } else { parts.join(";") }))
+                }
+                None => Some("SKIP".into()),
+            }
+        }
+        "rel" => {
+            if t.len() != 3 {
+                return Some("BADCASE".into());
+            }
+            let (Some(a), Some(b)) = (parse_rec_if(t[1]), parse_rec_if(t[2])) else {
+                return Some("SKIP".into());
+            };
+            match vh::rel(&a, &b) {
+                Some((m, r, _c, s)) => Some(format!("OK {} {} {}", m as u8, r as u8, s as u8)),
+                None => Some("SKIP".into()),
+            }
+        }
+        "lsim" => Some(crate::sim::run_history(&t[1..].join(" "))),
+        _ => None,
+    }
 }
